@@ -34,6 +34,9 @@ func runC13(c *Check, tier string) {
 	shareRule(c, "R13h", "the output hash describes the outputs in their final state: the bin output is made executable before the registry call that hashes and stores the outputs (same obligation as R06i), so a re-execution that reproduces the same outputs reproduces the same hash", 1, "R06i", func(sub *Check) { ruleR06i(sub) }, nil)
 	// round 7: a no-cache target (or any target of a cache-disabled build) that executed is never restored over
 	shareRule(c, "R13k", "the completion function marks an executed target as materialised on every path to success, cached or not (same obligation as R03h): the dependency loader neither restores a stored record over what was just built nor runs it again", 1, "R03h", func(sub *Check) { ruleExecutedCountsAsLoaded(sub, "R03h") }, nil)
+	// round 8: re-executing a target that reproduces its outputs reproduces its output hash: record lists are filled in a deterministic order
+	shareRule(c, "R13l", "the lists of a persisted output record are filled sequentially, never from goroutines in completion order (same obligations as R09j): the digest of an unchanged directory output does not depend on scheduling", 1, "R09j", func(sub *Check) { ruleRecordListsFilledSequentially(sub, "R09j") }, nil)
+	ruleRecordEntriesNotFromCompletionOrder(c, "R13m")
 }
 
 // ruleRecordCacheIndependent: nothing that is stored into the (hashed) output
